@@ -42,9 +42,16 @@ def leaked_attempts(chk, binp, sd, pol_keys, pol_val, skip_word, ws_ip, ws_port,
     _, v, nip, nport = out[-1].split(" ")
     proc.stdin.write(f"tc {(pid << 32) | pid} {(gid << 32) | uid} 2 {nip} {nport} {lport}\n"); proc.stdin.flush()
     proc.stdout.readline()
+    tc_line = f"tc {(pid << 32) | pid} {(gid << 32) | uid} 2 {nip} {nport} {lport}"
     proc.stdin.write("dump\n"); proc.stdin.flush()
     dump = proc.stdout.readline().strip()
     proc.stdin.close(); proc.wait()
+    # the model with the maps' declared kinds and capacities (eviction included) against the C program on the same schedule
+    mo = vlib.run_driver(["ebpf new"] + ["ebpf " + l for l in lines + [tc_line, "dump"]])
+    if mo[1:len(lines) + 1] != out or mo[-1] != dump:
+        i = next((i for i in range(len(lines)) if mo[1 + i] != out[i]), None)
+        chk.disagreement("ebpf-sim-leaks", {"schedule": "260 leaked hand-over entries then one complete connect", "first_difference_at_op": i},
+                         (mo[1 + i] if i is not None else mo[-1][:300]), (out[i] if i is not None else dump[:300]))
     chk.case(nontrivial_key=("leaked-attempts", 260))
     chk.count("leaked_attempt_schedules")
     ent = None
@@ -116,7 +123,252 @@ def attach_point(chk, binp, sd, rng):
         chk.broken.append({"kind": "harness", "name": "attach lookups", "why": "%d answers for %d lookups: %s" % (len(got), len(cases), se[-300:])})
 
 
+HELPER = r"""
+import os, socket, sys, threading
+def one(spec):
+    ip, port, proto = spec.split(":")
+    s = socket.socket(socket.AF_INET, socket.SOCK_STREAM if proto == "tcp" else socket.SOCK_DGRAM)
+    s.settimeout(2.0)
+    try:
+        s.connect((ip, int(port)))
+        if proto == "tcp":
+            tag = s.recv(1).decode() or "?"
+        else:
+            tag = "u:%s:%d" % s.getpeername()
+    except OSError as e:
+        tag = "E%d" % (e.errno or 0)
+    s.close()
+    return tag
+for line in sys.stdin:
+    t = line.split()
+    if not t:
+        continue
+    uid, gid, specs = int(t[0]), int(t[1]), t[2:]
+    r, w = os.pipe()
+    pid = os.fork()
+    if pid == 0:
+        os.close(r)
+        os.setgroups([]); os.setresgid(gid, gid, gid); os.setresuid(uid, uid, uid)
+        tags = [one(sp) for sp in specs]
+        os.write(w, (" ".join([str(os.getpid())] + tags) + "\n").encode())
+        os._exit(0)
+    os.close(w)
+    out = os.read(r, 4096).decode()
+    os.close(r)
+    os.waitpid(pid, 0)
+    sys.stdout.write(out); sys.stdout.flush()
+"""
+
+
+def kernel_stage(chk, binp, sd, rng, protected, local_ip):
+    """the program built from the unmodified ebpf_cgroup.c for the bpf target is loaded into the RUNNING kernel by the agent's own loader
+    (both programs pass the verifier), cgroup/connect4 is attached to a test cgroup, and real processes in that cgroup connect:
+    where they land, and what the hand-over map then holds, is compared with the model; the policy and skip maps are kept through
+    the agent's own BpfObject methods and read back from the kernel. (This kernel has no kprobes: the tcp_connect half is load-only.)"""
+    import socket
+    import sys
+    import threading
+    import time
+    obj = os.path.join(sd, "ebpf_cgroup.bpf.o")
+    cc = subprocess.run(["clang", "-target", "bpf", "-O2", "-g", "-Wno-everything", "-D__TARGET_ARCH_x86", "-I", os.path.join(vlib.VERIF, "ebpf_sim", "bpfinc"),
+                         "-I/usr/include/x86_64-linux-gnu", "-c", os.path.join(vlib.REPO, "linux-ebpf", "ebpf_cgroup.c"), "-o", obj],
+                        stdout=subprocess.PIPE, stderr=subprocess.STDOUT, text=True)
+    if cc.returncode != 0:
+        if "unknown target" in cc.stdout or "No available targets" in cc.stdout:
+            chk.notes.append("kernel stage skipped: clang has no bpf target")
+            return
+        chk.disagreement("kernel", {"step": "clang -target bpf"}, "the program compiles for the bpf target", cc.stdout[-600:])
+        return
+    fm = subprocess.run(["findmnt", "-t", "cgroup2", "-n", "-o", "TARGET"], stdout=subprocess.PIPE, text=True).stdout.split("\n")[0].strip()
+    if not fm:
+        chk.notes.append("kernel stage skipped: no cgroup2 mount")
+        return
+    import glob
+    for old in glob.glob(os.path.join(fm, "verif-c06-*")):
+        try:
+            os.rmdir(old)            # left behind by a run that was killed (only possible once it is empty)
+        except OSError:
+            pass
+    cg = os.path.join(fm, "verif-c06-%d" % os.getpid())
+    try:
+        os.mkdir(cg)
+    except OSError as e:
+        chk.notes.append("kernel stage skipped: cannot create a cgroup (%s)" % e)
+        return
+    lsocks, stop = [], []
+    eng = None
+    helper = None
+    try:
+        # listeners: the proxy's stand-in ("P") and the real addresses ("H") on this namespace's loopback
+        lp = socket.socket(); lp.bind(("127.0.0.1", 0)); lp.listen(64)
+        lport = lp.getsockname()[1]
+        lsocks.append((lp, b"P"))
+        for name, ip, port in protected + [("plain", netip(10, 0, 0, 4), 443)]:
+            a = "%d.%d.%d.%d" % tuple((ip >> s_) & 0xff for s_ in (0, 8, 16, 24))
+            subprocess.run(["ip", "addr", "add", a + "/32", "dev", "lo"], stderr=subprocess.DEVNULL)
+            h = socket.socket(); h.setsockopt(socket.SOL_SOCKET, socket.SO_REUSEADDR, 1)
+            try:
+                h.bind((a, port)); h.listen(64)
+                lsocks.append((h, b"H"))
+            except OSError:
+                pass
+
+        def serve(sock, tag):
+            sock.settimeout(0.3)
+            while not stop:
+                try:
+                    c, _ = sock.accept()
+                except OSError:
+                    continue
+                try:
+                    c.sendall(tag)
+                finally:
+                    c.close()
+        for sock, tag in lsocks:
+            threading.Thread(target=serve, args=(sock, tag), daemon=True).start()
+        r, w = os.pipe()
+        eng = subprocess.Popen([binp], stdin=subprocess.PIPE, stdout=subprocess.DEVNULL, stderr=subprocess.DEVNULL, pass_fds=(w,), cwd=sd,
+                               env=dict(os.environ, VERIF_ENGINE="kernel", VERIF_OUT="/dev/fd/%d" % w))
+        os.close(w)
+        eout = os.fdopen(r)
+
+        def ctl(line):
+            eng.stdin.write((line + "\n").encode()); eng.stdin.flush()
+            return eout.readline().strip()
+        ld = ctl("load " + vlib.hx(obj))
+        if ld != "ok":
+            why = vlib.unhx(ld[4:]).decode("utf-8", "replace") if ld.startswith("err ") else ld
+            if "Operation not permitted" in why or "EPERM" in why or "Permission denied" in why:
+                chk.notes.append("kernel stage skipped: bpf() not permitted here")
+                return
+            chk.disagreement("kernel", {"step": "load"}, "the object loads", why[-600:])
+            return
+        kp = ctl("kprobe")
+        chk.count("kernel_kprobe_" + kp.split(" ")[0].replace("-", "_"))
+        if kp.startswith("err"):
+            chk.disagreement("kernel", {"step": "tcp_connect program"}, "the verifier accepts the program", vlib.unhx(kp[4:]).decode("utf-8", "replace")[-800:])
+        at = ctl("attach " + vlib.hx(cg))
+        if at != "ok":
+            why = vlib.unhx(at[4:]).decode("utf-8", "replace")
+            if "verifier" in why.lower() or "load" in why.lower():
+                chk.disagreement("kernel", {"step": "connect4 program"}, "the verifier accepts the program", why[-800:])
+            else:
+                chk.notes.append("kernel stage skipped: cannot attach to a cgroup here (%s)" % why[-200:])
+            return
+        chk.count("kernel_programs_loaded")
+        # ---- the user-space half on the real maps: the agent's own methods, over a history of policy changes
+        model = ["ebpf new"]
+        lval = None
+        for step in range(14 if chk.tier == "quick" else 200):
+            name, ip, port = rng.pick(protected)
+            if step < 3:
+                name, ip, port = protected[step]
+                ctl("policy %d %d %d" % (ip, port, lport)); on = True
+            else:
+                on = rng.chance(1, 2)
+                ctl("redirect %d %d %d %d" % (ip, port, lport, 1 if on else 0))
+            key = " ".join(str(x) for x in (ip, 0, 0, 0, bswap16(port), TCP))
+            val = " ".join(str(x) for x in (local_ip, 0, 0, 0, bswap16(lport), TCP))
+            model.append(("ebpf policy %s %s" % (key, val)) if on else ("ebpf unpolicy " + key))
+            if step % 3 == 2 or step > 10:
+                model.append("ebpf pdump")
+                got = ctl("dump").split(" | ")
+                model.append(("CMP", got[0] + " | " + got[1], "policy history step %d (%s %s)" % (step, name, "on" if on else "off")))
+        helper_pid_line = None
+        # ---- real connects from processes inside the cgroup
+        open(os.path.join(sd, "helper.py"), "w").write(HELPER)
+        helper = subprocess.Popen([sys.executable, os.path.join(sd, "helper.py")], stdin=subprocess.PIPE, stdout=subprocess.PIPE, text=True, bufsize=1)
+        open(os.path.join(cg, "cgroup.procs"), "w").write(str(helper.pid))
+        for name, ip, port in protected:      # everything protected again
+            ctl("redirect %d %d %d 1" % (ip, port, lport))
+            model.append("ebpf policy %s %s" % (" ".join(str(x) for x in (ip, 0, 0, 0, bswap16(port), TCP)), " ".join(str(x) for x in (local_ip, 0, 0, 0, bswap16(lport), TCP))))
+        dq = lambda ip: "%d.%d.%d.%d" % tuple((ip >> s_) & 0xff for s_ in (0, 8, 16, 24))
+        plain = (netip(10, 0, 0, 4), 443)
+        runs = []
+        for k in range(10 if chk.tier == "quick" else 120):
+            uid = rng.pick([0, 1000, 1001, 33, 65534]); gid = rng.pick([0, 100, 27, 65534, 1000])
+            n = rng.rand_range(1, 4)
+            specs = []
+            for _ in range(n):
+                kind = rng.pick(["prot", "prot", "plain", "udp", "otherport"])
+                name, ip, port = rng.pick(protected)
+                if kind == "prot":
+                    specs.append((ip, port, "tcp", True))
+                elif kind == "plain":
+                    specs.append((plain[0], plain[1], "tcp", False))
+                elif kind == "udp":
+                    specs.append((ip, port, "udp", False))
+                else:
+                    specs.append((ip, port + 1, "tcp", False))
+            runs.append((uid, gid, specs))
+        # one process that is in the agent's process list
+        for (uid, gid, specs) in runs:
+            helper.stdin.write("%d %d %s\n" % (uid, gid, " ".join("%s:%d:%s" % (dq(ip), port, proto) for ip, port, proto, _ in specs))); helper.stdin.flush()
+            ans = helper.stdout.readline().split()
+            if not ans:
+                chk.broken.append({"kind": "harness", "name": "kernel stage helper", "why": "no answer"})
+                return
+            pid, tags = int(ans[0]), ans[1:]
+            pt = (pid << 32) | pid
+            for (ip, port, proto, prot), tag in zip(specs, tags):
+                chk.case(nontrivial_key=("kernel-connect", uid, gid, prot, proto, tag))
+                chk.count("kernel_connects")
+                d = {"kernel": "running kernel, real connect() by pid %d uid %d gid %d" % (pid, uid, gid), "destination": "%s:%d/%s" % (dq(ip), port, proto), "landed": tag}
+                landed_proxy = tag == "P"
+                if landed_proxy != prot:
+                    chk.violation("connect redirected iff (destination protected and caller not the agent) does not hold", d, expected=prot, observed=landed_proxy)
+                model.append("ebpf c4 %d %d %d %d %d" % (pt, (gid << 32) | uid, ip, bswap16(port), TCP if proto == "tcp" else UDP))
+            # what the hand-over map holds for that thread now (tcp_connect never runs in this kernel, so the last word stays)
+            model.append("ebpf ldump")
+            got = ctl("dump").split(" | ")[3]
+            mine = " ".join(e for e in got.split(" ")[1:] if e.startswith("[%d,%d->" % (pid, pid)))
+            model.append(("CMPL", mine, pt, "hand-over entry of pid %d after %s" % (pid, [(dq(i), p, pr) for i, p, pr, _ in specs]), uid, gid, specs))
+        outs = iter(vlib.run_driver([m for m in model if isinstance(m, str)]))
+        last = None
+        for m in model:
+            if isinstance(m, str):
+                last = next(outs)
+                continue
+            if m[0] == "CMP":
+                chk.case(nontrivial_key=("kernel-policy", m[2]))
+                chk.count("kernel_policy_dumps")
+                if last != m[1]:
+                    chk.disagreement("kernel-maps", {"after": m[2]}, last, m[1])
+                    chk.violation("the redirect policy in the kernel map is not the one the agent was told to apply", {"after": m[2]}, expected=last, observed=m[1])
+            else:
+                _, mine, pt, what, uid, gid, specs = m
+                want = " ".join(e for e in last.split(" ")[1:] if e.startswith("[%d,%d->" % (pt & 0xffffffff, pt >> 32)))
+                chk.count("kernel_handover_entries_compared")
+                if want != mine:
+                    chk.disagreement("kernel-handover", {"what": what, "uid": uid, "gid": gid}, want, mine)
+                    if mine and not want:
+                        chk.violation("a record was produced for a connect that must be left untouched", {"what": what, "pending_entry_in_the_kernel_map": mine})
+                    elif mine and want and mine.split("->")[1].split(",")[0] != str(uid):
+                        chk.violation("audit record does not state the true caller / original destination", {"what": what, "uid": uid, "gid": gid}, expected=want, observed=mine)
+    finally:
+        stop.append(1)
+        for p_ in (helper, eng):
+            if p_ is not None:
+                try:
+                    p_.stdin.close()
+                    p_.wait(timeout=3)
+                except Exception:
+                    p_.kill()
+        for sock, _ in lsocks:
+            sock.close()
+        for _ in range(50):
+            try:
+                os.rmdir(cg)
+                break
+            except OSError:
+                time.sleep(0.1)
+
+
 def run(chk):
+    import e2e
+    if not e2e.in_netns():
+        e2e.reexec_in_netns()
+    e2e.setup_net()
     rng = vlib.Rng(chk.seed)
     chk.prove()
     if not chk.driver():
@@ -161,7 +413,18 @@ def run(chk):
         pid_pool = [rng.rand_range(2, 60000) for _ in range(rng.pick([1, 2, 4]))]
         lport = 20000 + rng.below(1000)
         for i in range(nthreads):
-            # a thread has at most one connect between the two hooks: no two attempts of a schedule share (pid, tid)
+            if i > 0 and rng.chance(1, 5):
+                # the same thread connects again after its earlier attempt is over (completed, or failed between the two hooks):
+                # one connect at a time per thread, but any number one after the other
+                j = rng.below(i)
+                if not any(t.get("after") == j for t in threads):
+                    ip, port, proto, prot = rng.pick(dests)
+                    lport += 1
+                    threads.append(dict(threads[j], ip=ip, port=port, proto=proto, lport=lport, stage=0, after=j,
+                                        protected=prot and policy_on[[p[1:] for p in protected].index((ip, port))] if prot else False))
+                    chk.count("second_attempt_of_a_thread")
+                    continue
+            # a thread has at most one connect between the two hooks: attempts that may overlap never share (pid, tid)
             while True:
                 # processes with several threads connecting at once (same pid, different tids) as well as single-threaded ones
                 pid = AGENT_PID if rng.chance(1, 12) else (rng.pick(pid_pool) if rng.chance(1, 2) else rng.rand_range(2, 60000))
@@ -181,6 +444,8 @@ def run(chk):
         while pending:
             i = rng.pick(pending)
             t = threads[i]
+            if t.get("after") is not None and t["after"] in pending:
+                continue                        # its thread is still busy with the earlier attempt
             if t["stage"] == 0:
                 sim_lines.append(f"c4 {t['pt']} {t['ug']} {t['ip']} {bswap16(t['port'])} {t['proto']}")
                 meta.append(("c4", sc, i))
@@ -284,6 +549,7 @@ def run(chk):
                     chk.violation("a record was produced for a connect that must be left untouched", desc, observed=got.get(key))
     leaked_attempts(chk, binp, sd, pol_keys, pol_val, skip_word, ws_ip, ws_port, local_ip)
     attach_point(chk, binp, sd, rng)
+    kernel_stage(chk, binp, sd, rng, protected, local_ip)
     shutil.rmtree(sd, ignore_errors=True)
     chk.sample({"ops": model_in[:8], "sim": sim_out[:8]})
     if chk.counts.get("uid_ne_gid", 0) == 0 or chk.counts.get("records_expected", 0) == 0:
